@@ -299,3 +299,25 @@ PROPS["C05"] = {
     "assumptions": ["digests use FNV over canonical renderings; instance ids are not part of the rendering"],
     "design_ref": "DESIGN.md section 3, C05",
 }
+
+PROPS["C09"] = {
+    "engine": "c09",
+    "level": "exploration",
+    "technique": "shadow-runtime differential monitor: after every restart/power cycle the runtime under test is compared, state and every later cycle, with a brand-new runtime into which exactly the model's retained variables were copied",
+    "quick": {"shards": 8, "budget_s": 20, "watchdog_s": 900},
+    "thorough": {"shards": 16, "budget_s": 300, "watchdog_s": 3600},
+    "floor": {"quick": 1000, "thorough": 20000},
+    "require_counters": {"quick": {"restarts_checked": 5000, "variables_compared": 500000, "retained_values_injected_into_model": 3000}, "thorough": {"restarts_checked": 100000}},
+    "rule": "declarations: 3-10 variables crossing qualifier {RETAIN, NON_RETAIN, none, PERSISTENT} x scope {configuration global, task program VAR, background program VAR} x type {BOOL, INT, DINT, "
+            "LINT, UINT, REAL, LREAL, TIME, STRING, WORD, ARRAY OF INT, STRUCT}; every (scope, qualifier, type) cell also runs once with a fixed history containing warm, power cycle, fault and cold "
+            "restart (complete in every tier). Fixed frame: 3 tasks incl. an event task, a background program, local and global FB instances, program-level AT %IX/%QX/%IW/%QW/%MW bindings, a "
+            "probe I/O driver. Histories of 10-25 ops {cycle with random driver input, warm, cold, save+new runtime+load, faulting cycle} ending in a restart and a 4-cycle continuation. distinct = "
+            "(declaration shape, history shape); non-trivial = a retained and a non-retained variable present and >= 1 restart",
+    "level_text": "The model is executable: a brand-new runtime from the same sources (cold), plus exactly the RETAIN/PERSISTENT global and program-level variables of retainable type copied from the "
+                  "pre-restart state (warm, power cycle). Immediately after the restart and after every later cycle the monitor compares all variables by name path (storage walk), the bytes handed "
+                  "to the I/O driver, drained runtime events (task activations), current time, cycle counter and fault latch.",
+    "level_note": "RETAIN members declared inside FB types are not generated (the property text speaks of global or program-level variables). The power cycle uses a new Runtime in the same process: "
+                  "only the retain file carries state.",
+    "assumptions": ["the copy of retained variables into the shadow uses the public storage API (set_global / set_instance_var)"],
+    "design_ref": "DESIGN.md section 3, C09",
+}
